@@ -114,28 +114,7 @@ def run(chk, prog):
                        'stale copy of the live flow (saved under the same key as the live one)'
                        % (root, ' and '.join(bad)), fn.loc(bb))
     chk.floor(RB, 'inserts into named_flows', nins, 2)
-    # current flow taken from a map entry -> entry removed
-    lj = prog.fn('StoryState::load_json_obj')
-    if chk.anchor(RB, 'StoryState::load_json_obj', lj):
-        g = cfg(lj)
-        took = []
-        for bb, si, s in lj.stmts():
-            if s['k'] == 'assign':
-                fl = fields_of_place(s['pl'])
-                if fl and fl[-1] == ('StoryState', 'current_flow') and s['rv']['k'] == 'use':
-                    at = tr.prov(lj, s['rv']['op'])
-                    if 'field:StoryState::named_flows' in at:
-                        took.append(bb)
-        rem = [bb for bb, t in lj.calls() if callee_short(t) == 'HashMap::remove'
-               and 'field:StoryState::named_flows' in tr.prov(lj, t['args'][0])]
-        if chk.anchor(RB, 'current flow taken from a named_flows entry in load_json_obj', took):
-            for bb in took:
-                ok, w = g.must_pass_through(bb, rem)
-                same = bb in rem
-                chk.decide(RB, chk.key(RB, 'load_json_obj', 'entry-removed'), ok or same,
-                           'the entry the current flow was copied from is removed on every path',
-                           'after loading, the current flow is copied from its named_flows entry but the entry is not '
-                           'removed on every path: the map keeps a second copy', lj.loc(bb))
+    check_load_parks_no_current_flow(chk, prog, tr, RB)
 
     # ---- (c)
     sw = prog.fn('StoryState::switch_flow_internal')
@@ -160,6 +139,51 @@ def run(chk, prog):
                        'the swapped-out flow is inserted into named_flows on every path',
                        'after the swap a path to return does not park the previous flow: it is dropped', sw.loc(good[0]),
                        {'witness_blocks': w})
+
+
+def check_load_parks_no_current_flow(chk, prog, tr, RB):
+    """After load_json_obj the current flow is not also an entry of named_flows (shared by C10 and C02)."""
+    # current flow taken from a map entry -> entry removed
+    lj = prog.fn('StoryState::load_json_obj')
+    if chk.anchor(RB, 'StoryState::load_json_obj', lj):
+        g = cfg(lj)
+        took = []
+        for bb, si, s in lj.stmts():
+            if s['k'] == 'assign':
+                fl = fields_of_place(s['pl'])
+                if fl and fl[-1] == ('StoryState', 'current_flow') and s['rv']['k'] == 'use':
+                    at = tr.prov(lj, s['rv']['op'])
+                    if 'field:StoryState::named_flows' in at:
+                        took.append(bb)
+        rem = [bb for bb, t in lj.calls() if callee_short(t) == 'HashMap::remove'
+               and 'field:StoryState::named_flows' in tr.prov(lj, t['args'][0])]
+        # or: assigned and inserted on one and the same path (`current_flow = flow.clone(); map.insert(name, flow)`)
+        ins_l = [bb for bb, t in lj.calls() if callee_short(t) == 'HashMap::insert' and len(t['args']) >= 3 and (
+            'field:StoryState::named_flows' in tr.prov(lj, t['args'][0]) or _is_flow_map(lj, t))]
+        heads = g.loops_heads()
+        for bb, si, s in lj.stmts():
+            if s['k'] == 'assign':
+                fl = fields_of_place(s['pl'])
+                if fl and fl[-1] == ('StoryState', 'current_flow') and bb not in took:
+                    for ib in ins_l:
+                        same_iter = g.path([bb], lambda b, ib=ib: b == ib, avoid=list(heads)) is not None or \
+                            g.path([ib], lambda b, bb=bb: b == bb, avoid=list(heads)) is not None
+                        if same_iter:
+                            took.append(bb)
+                            break
+        if chk.anchor(RB, 'load_json_obj fills named_flows and sets the current flow', ins_l):
+            if not took:
+                chk.ok(RB, chk.key(RB, 'load_json_obj', 'entry-removed'),
+                       'no flow is both made current and parked on the same path', lj.loc(ins_l[0]))
+            for bb in took:
+                ok, w = g.must_pass_through(bb, rem)
+                same = bb in rem
+                chk.decide(RB, chk.key(RB, 'load_json_obj', 'entry-removed'), ok or same,
+                           'the entry the current flow was copied from is removed on every path',
+                           'after loading, the current flow also stays parked in named_flows (it is copied from / inserted '
+                           'beside its map entry and the entry is not removed on every path): the map keeps a second copy '
+                           'that goes stale and is saved over the live flow under the same key', lj.loc(bb))
+
 
 
 def _is_flow_map(fn, t):
